@@ -120,3 +120,67 @@ package alert
 //@ func (*Inhibitor).Set
 //@   trusted
 //@   modifies nothing
+
+// ---------------------------------------------------------------- handlers of a topic (C09)
+
+// Handler identity: Equal compares the wrapped handler (recovering from incomparable types);
+// assumed (trusted) deterministic and effect-free.
+//@ func (*bufHandler).Equal
+//@   trusted
+//@   pure
+//@ func (*bufHandler).Close
+//@   trusted
+//@   modifies nothing
+//@ func newHandler
+//@   trusted
+//@   modifies nothing
+//@   ensures result != nil && fresh(result)
+
+// Number of events handed to a handler's queue: a specification-only counter.
+//@ ghost (github.com/influxdata/kapacitor/alert.bufHandler) delivered int
+//@ func (*bufHandler).Handle
+//@   trusted
+//@   modifies gf(h, delivered, int)
+//@   ensures result == nil ==> gf(h, delivered, int) == old(gf(h, delivered, int)) + 1
+//@   ensures result != nil ==> gf(h, delivered, int) == old(gf(h, delivered, int))
+
+//@ spec handlersOK(t *Topic) bool = t != nil
+//@     && (forall i int :: 0 <= i && i < len(t.handlers) ==> t.handlers[i] != nil)
+//@     && (forall i int, j int :: 0 <= i && i < j && j < len(t.handlers) ==> t.handlers[i] != t.handlers[j])
+
+// Removing a handler removes exactly the first one that equals it: every other registered
+// handler stays registered, each once (the last one moves into the hole).
+//@ func (*Topic).removeHandler
+//@   props C09
+//@   requires handlersOK(t)
+//@   modifies t.handlers, elems(t.handlers)
+//@   ensures handlersOK(t)
+//@   ensures (forall j int :: 0 <= j && j < old(len(t.handlers)) ==> !old(t.handlers[j]).Equal(h)) ==>
+//@       len(t.handlers) == old(len(t.handlers)) && (forall j int :: 0 <= j && j < len(t.handlers) ==> t.handlers[j] == old(t.handlers[j]))
+//@   ensures forall i int :: 0 <= i && i < old(len(t.handlers)) && old(t.handlers[i]).Equal(h)
+//@       && (forall j int :: 0 <= j && j < i ==> !old(t.handlers[j]).Equal(h)) ==>
+//@       len(t.handlers) == old(len(t.handlers)) - 1
+//@       && (forall j int :: 0 <= j && j < len(t.handlers) && j != i ==> t.handlers[j] == old(t.handlers[j]))
+//@       && (i < old(len(t.handlers)) - 1 ==> t.handlers[i] == old(t.handlers[len(t.handlers) - 1]))
+//@   loop 1
+//@     modifies nothing
+//@     invariant 0 <= i && i <= len(t.handlers)
+//@     invariant forall j int :: 0 <= j && j < i ==> !t.handlers[j].Equal(h)
+
+// Every registered handler gets the event exactly once (or reports an error for it).
+//@ func (*Topic).handleEvent
+//@   props C09
+//@   requires handlersOK(t)
+//@   ensures forall i int :: 0 <= i && i < len(t.handlers) ==>
+//@       gf(t.handlers[i], delivered, int) == old(gf(t.handlers[i], delivered, int)) + 1
+//@       || (result != nil && gf(t.handlers[i], delivered, int) == old(gf(t.handlers[i], delivered, int)))
+//@   ensures forall p *bufHandler :: (forall i int :: 0 <= i && i < len(t.handlers) ==> t.handlers[i] != p) ==>
+//@       gf(p, delivered, int) == old(gf(p, delivered, int))
+//@   loop 1
+//@     modifies elems(errs), gfall(delivered, int)
+//@     invariant 0 <= _i && _i <= len(t.handlers) && (len(errs) > 0 || _i >= 0)
+//@     invariant forall i int :: 0 <= i && i < _i ==>
+//@       gf(t.handlers[i], delivered, int) == old(gf(t.handlers[i], delivered, int)) + 1
+//@       || (len(errs) > 0 && gf(t.handlers[i], delivered, int) == old(gf(t.handlers[i], delivered, int)))
+//@     invariant forall p *bufHandler :: (forall i int :: 0 <= i && i < _i ==> t.handlers[i] != p) ==>
+//@       gf(p, delivered, int) == old(gf(p, delivered, int))
